@@ -1462,7 +1462,12 @@ class Engine:
             if v.ty.sort() == ty.sort():
                 return Sym(v.t, ty if ty.kind != 'obj' or ty.cls else v.ty, fresh=v.fresh)
             if v.ty.kind == 'pyv' and ty.kind == 'str':
+                # a JSON value used where the callee needs a str: it must BE a str (values read
+                # from the cache file are whatever the file held)
                 from spec import json_spec as J
+                st_ = getattr(self, '_coerce_state', None)
+                if st_ is not None:
+                    self.oblige(st_, J.is_str(J.base_of(v.t)), 'type', 'json-value-is-a-str')
                 return Sym(PyV.ps(J.base_of(v.t)), STR)
             if v.ty.kind == 'opt' and v.ty.args[0].sort() == ty.sort():
                 # Optional value passed where the callee dereferences it: must not be None
